@@ -63,6 +63,15 @@ def ops : List (String × (List String → String)) := [
     match Rd.run (do let v ← Rd.int; let f ← Rd.str; let t ← Rd.str; pure (v, f, t)) ts with
     | none => "bad-op"
     | some (v, f, t) => let r := label table v f t; Wr.render (wrQ r.1 ++ Wr.str r.2)),
+  -- model: report value formatter with ratio rnum/rden -> divided value, rounded number, unit suffix
+  ("c15.format", fun ts =>
+    match Rd.run (do let v ← Rd.int; let n ← Rd.int; let d ← Rd.nat; let f ← Rd.str; let t ← Rd.str; pure (v, n, d, f, t)) ts with
+    | none => "bad-op"
+    | some (v, n, d, f, t) =>
+      let r : Q := ⟨n, d⟩
+      let w := if Q.ltB Q.zero r && !decide (Q.eqv r Q.one) then scaleByRatio v r else v
+      let l := formatValue table r v f t
+      Wr.render ([toString w] ++ wrQ l.1 ++ Wr.str l.2)),
   -- model: Percentage(v, total) -> ratio and formatting class
   ("c15.pct", fun ts =>
     match Rd.run (do let v ← Rd.int; let t ← Rd.int; pure (v, t)) ts with
